@@ -156,17 +156,6 @@ def make_fake_websocket_module(peer, log):
             self.connected = False
             self.conn.close()
 
-        def __del__(self):
-            # websocket-client's socket is closed when the last reference to
-            # the connection object goes away (the threaded client relies on
-            # that when it abandons a failed upgrade attempt)
-            try:
-                if self.connected:
-                    self.connected = False
-                    self.conn.close()
-            except BaseException:
-                pass
-
     def create_connection(url, **opts):
         log.append({'kind': 'ws-connect', 'url': url,
                     'timeout': opts.get('timeout'),
@@ -220,6 +209,41 @@ class FakeQueueModule:
         return vsched.VQueue(self.sched, *a, **k)
 
 
+def _collect_abandoned_sockets(client, peer, is_async):
+    """The clients do not close the socket of an upgrade attempt they give
+    up: they drop their last reference to it and the connection goes when the
+    object is collected (websocket-client's socket, aiohttp's response). The
+    harness does what the collector does, at the moment the attempt is given
+    up and independently of the interpreter's collection order: when
+    _connect_websocket() reports a failed attempt, every connection the
+    client object does not refer to any more is closed."""
+    orig = client._connect_websocket
+
+    def collect():
+        cur = getattr(getattr(client, 'ws', None), 'conn', None)
+        for conn in list(getattr(peer, 'ws_conns', None) or []):
+            if conn is not cur and not conn.ws.client_closed:
+                conn.ws.close()
+                if is_async:
+                    conn.inbox.put_nowait(CLOSED)
+                else:
+                    conn.inbox.put(CLOSED)
+
+    if is_async:
+        async def wrapped(*a, **k):
+            r = await orig(*a, **k)
+            if r is False:
+                collect()
+            return r
+    else:
+        def wrapped(*a, **k):
+            r = orig(*a, **k)
+            if r is False:
+                collect()
+            return r
+    client._connect_websocket = wrapped
+
+
 class CliT:
     """The real threaded Client on a scheduler, with an application log."""
     kind = 'T'
@@ -249,6 +273,7 @@ class CliT:
         legacy = kw.pop('legacy_disconnect', False)
         self.c = engineio.Client(http_session=FakeSession(peer, self.wire),
                                  **kw)
+        _collect_abandoned_sockets(self.c, peer, False)
         self.on_connect = None
         self.on_message = None
         self.on_disconnect = None
@@ -456,19 +481,6 @@ class AWs:
         self.peer = peer
         self.closed = False
 
-    def __del__(self):
-        # aiohttp releases (closes) the connection of a response object
-        # nobody refers to any more; the client relies on that when it
-        # abandons a failed upgrade attempt
-        try:
-            if not self.closed:
-                self.closed = True
-                ws = getattr(self.conn, 'ws', None)
-                if ws is not None:
-                    ws.close()
-        except BaseException:
-            pass
-
     async def send_str(self, s):
         if not isinstance(s, str):       # as aiohttp does
             raise TypeError('data argument must be str (%r)' % type(s))
@@ -558,6 +570,7 @@ class CliA:
         else:
             self.session = FakeAioSession(peer, self.wire)
         self.c = engineio.AsyncClient(http_session=self.session, **kw)
+        _collect_abandoned_sockets(self.c, peer, True)
         self.on_connect = None
         self.on_message = None
         self.on_disconnect = None
@@ -1218,7 +1231,9 @@ class PeerT:
         if not ws.accepted:
             raise PeerRefused('websocket handshake refused (%r)' % (
                 t.status,))
-        return PeerTConn(ws, inbox, self)
+        conn = PeerTConn(ws, inbox, self)
+        self.__dict__.setdefault('ws_conns', []).append(conn)
+        return conn
 
 
 class PeerTConn:
@@ -1336,7 +1351,9 @@ class PeerA:
         await ev.wait()
         if not ws.accepted:
             raise PeerRefused('websocket handshake refused')
-        return PeerAConn(ws, inbox, self)
+        conn = PeerAConn(ws, inbox, self)
+        self.__dict__.setdefault('ws_conns', []).append(conn)
+        return conn
 
 
 class PeerAConn:
